@@ -20,6 +20,8 @@ class Registry:
         self.modules.discard("numpy.ndarray")
         self.used = set()          # names of axioms / contracts actually applied (for evidence)
         install_builtins(self)
+        # logging is effect-free on values (extraction drops logger.* statements; the logger object itself is opaque)
+        self.fn["logging.getLogger"] = lambda ex, args, kw, node: V.ModuleConst("logging", "logger", None)
 
     def axiom(self, name):
         def deco(f):
